@@ -217,7 +217,9 @@ CStep(S0, r) ==
          ELSE IF r.client = "running" THEN Bad(S, IF r.cl \in S.faulty THEN "C15" ELSE "C06", "a client's run future did not return")
          ELSE IF r.conn = "running" THEN Bad(S, IF r.cl \in S.faulty THEN "C15" ELSE "C06", "a connection task did not return")
          ELSE IF r.cl \notin S.faulty /\ r.res # "ok" THEN
-                Bad(S, IF S.cause # "" THEN "C15" ELSE "C06",
+                \* (a client that itself asked to stop and is answered with a broken transport: the two sides
+                \* disagree on the shutdown handshake, which is C06's subject as much as C15's)
+                Bad(S, IF S.cause \in {"shutdown", "lasthandle"} THEN "C15+C06" ELSE IF S.cause # "" THEN "C15" ELSE "C06",
                     "a client that was shut down cleanly returned " \o r.res \o " (its connection task: " \o r.connRes \o ")")
          ELSE IF r.cl \in S.faulty /\ r.res = "ok" /\ r.strict THEN Bad(S, "C15", "a client whose transport failed returned ok")
          ELSE S
